@@ -903,8 +903,9 @@ theorem foldl_draws {σ β : Type} (need : β → Bool)
 
 section run
 variable {R : Type} [Add R] [Sub R] [Mul R] [Neg R] [Zero R] [One R] [Div R] [Consts R]
-  [LE R] [DecidableLE R] [HasSqrt R] [RegConsts R]
+  [LE R] [DecidableLE R] [LT R] [DecidableLT R] [HasSqrt R] [RegConsts R]
 
+omit [LE R] [DecidableLE R] [RegConsts R] in
 theorem Sym.finish_isSome (s : Sym R) (drawn : List Nat) (h : s.qOps.drawCount ≤ drawn.length) :
     (Sym.finish s drawn).isSome = true := by
   unfold Sym.finish
